@@ -4,6 +4,7 @@ use std::collections::HashMap;
 
 mod adj;
 mod container;
+mod cursor;
 mod paired;
 mod search;
 mod serde_io;
@@ -37,6 +38,8 @@ fn main() {
         "record-serde" => serde_io::record_serde(&opts),
         "replay-container" => container::replay(&opts),
         "record-paired" => paired::record(&opts),
+        "replay-cursor" => cursor::replay(&opts),
+        "record-cursor" => cursor::record(&opts),
         "record-container" => container::record(&opts),
         "replay-untrusted" => serde_io::replay_untrusted(&opts),
         "record-untrusted" => serde_io::record_untrusted(&opts),
